@@ -133,3 +133,32 @@ Definition toy_inflate (i : N) (c : list N) : N * option (list N) :=
   | [] => (i, None)
   end.
 Definition toy_sync (z i : N) : Prop := z = i \/ z = 0.
+
+(* ================================================================================================= *)
+(* The write queue (protocol.py sendData / _trigger / _send): synchronous and chopped writes go through a queue that the
+   reactor drains one entry per turn; while it is non-empty EVERY write is appended to it -- also the close frame of a
+   failure.  [wq_q] = send_queue (head first), [wq_wire] = what transport.write has been given, in order. *)
+Record wq := mkWq { wq_q : list (list N); wq_wire : list (list N) }.
+
+Definition pst_code (p : pst) : N :=
+  match p with OPEN => state_open | CLOSING => state_closing | CLOSED => state_closed end.
+
+(* sendData(data, sync) without chopsize *)
+Definition nonemptyq (q : list (list N)) : bool := match q with [] => false | _ => true end.
+Definition send_data (w : wq) (data : list N) (sync : bool) : wq :=
+  if sync || nonemptyq (wq_q w) then mkWq (wq_q w ++ [data]) (wq_wire w) else mkWq (wq_q w) (wq_wire w ++ [data]).
+
+(* one turn of _send in protocol state p: the head entry is popped; it is written unless the connection is CLOSED *)
+Definition drain_one (p : pst) (w : wq) : wq :=
+  match wq_q w with
+  | [] => w
+  | e :: r => mkWq r (if sq_write (pst_code p) then wq_wire w ++ [e] else wq_wire w)
+  end.
+
+Fixpoint drain (n : nat) (p : pst) (w : wq) : wq :=
+  match n with O => w | S k => drain k p (drain_one p w) end.
+
+(* failing the connection with the close-handshake policy: the close frame goes through sendData (not sync), the state
+   becomes CLOSING, then the reactor drains the queue *)
+Definition fail_and_drain (w : wq) (close_frame : list N) : wq :=
+  let w1 := send_data w close_frame false in drain (length (wq_q w1)) CLOSING w1.
